@@ -10,7 +10,7 @@ ASSUMPTIONS = ["oracle: dense Python rows and numpy applied per row / per column
                "positive-step slice, negative-step slices with bounds inside the rows, and a non-empty result in every selected row",
                "RunLength2dArray has no max / mean / argmax methods: those are explored on the ragged variant only"]
 REQUIRED_FEATURES = ["variant_2d", "variant_ragged", "variant_ragged_from_matrix", "run_straddles_row_boundary", "single_run_row", "left_operand",
-                     "column_operand", "neg_step_colslice", "from_intervals", "row_mask", "unequal_rows", "narrow_or_float_values"]
+                     "column_operand", "neg_step_colslice", "from_intervals", "row_mask", "unequal_rows", "narrow_or_float_values", "binary_matrix"]
 BOUNDS = {"quick": "rows<=2 x len<=3 (+ (5,), (4,5), (5,3)) x 5 run patterns x {RunLength2dArray.from_array, RunLengthRaggedArray.from_ragged_array, "
                    ".from_array} x all listed operations; from_intervals: L<=4, <=2 intervals, 3 value kinds",
           "thorough": "rows<=3 x len<=3 and rows<=2 x len<=5; from_intervals L<=5, <=3 intervals"}
@@ -32,10 +32,16 @@ def shards(tier):
     out = [{"lens": v, "pat": p} for v in _lv(tier) for p in range(len(PATS))]
     lmax = 4 if tier == "quick" else 5
     out += [{"iv": L} for L in range(1, lmax + 1)]
+    out += [{"binmat": [2, 4]}, {"binmat": [3, 3]}, {"binmat": [2, 5]}]
     return out
 
 
 def cases(shard, tier):
+    if "binmat" in shard:
+        r, c = shard["binmat"]
+        for bits in itertools.product([0, 1], repeat=r * c):
+            yield ["binmat", r, c, list(bits)]
+        return
     if "iv" in shard:
         L = shard["iv"]
         ivs = [(s, e) for s in range(L) for e in range(s + 1, L + 1)]
@@ -145,7 +151,24 @@ def _ref_rows(rows, rs):
     return [rows[i] for i in rs]
 
 
+def _check_binmat(case, acc):
+    from npstructures import RunLength2dArray
+    _, r, c, bits = case
+    acc.feature("binary_matrix")
+    mat = np.array(bits, dtype=np.int64).reshape(r, c)
+    if mat.any() and not mat.all():
+        acc.nontrivial()
+    acc.state(("binmat", r, c, tuple(bits)))
+    mk = lambda: RunLength2dArray.from_array(mat.copy())
+    _cmp(acc, "any(axis=0)", [bool(x) for x in mat.any(axis=0)], lambda: mk().any(axis=0))
+    _cmp(acc, "sum(axis=0)", mat.sum(axis=0).tolist(), lambda: mk().sum(axis=0))
+    _cmp(acc, "any(axis=-1)", [bool(x) for x in mat.any(axis=-1)], lambda: mk().any(axis=-1))
+    _cmp(acc, "decode", mat.tolist(), lambda: mk().to_array())
+
+
 def check(case, acc):
+    if case[0] == "binmat":
+        return _check_binmat(case, acc)
     if case[0] == "iv":
         return _check_iv(case, acc)
     _, lens, pat, variant, group = case[:5]
